@@ -39,7 +39,16 @@ def configs(draw, exhaustive=False):
         used.add((s, inst))
         dests.append([s, draw(st.sampled_from([2004, 2004, 2104, 2204, 12004])), inst])
   dests = draw(st.permutations(dests))
+  # membership history before the look-ups: extra destinations that join and leave again, and destinations that
+  # leave and rejoin (what DYNAMIC_ROUTER does); the property speaks about the set configured afterwards
+  extras = []
+  for _ in range(draw(st.integers(0, 2))):
+    e = (draw(st.sampled_from(SERVERS + ['gone-1', 'gone-2'])), draw(st.sampled_from(INSTANCES)))
+    if e not in used and e not in [(x[0], x[2]) for x in extras]:
+      extras.append([e[0], 2004, e[1]])
+  bounce = draw(st.lists(st.integers(0, len(dests) - 1), unique=True, max_size=2)) if len(dests) > 1 else []
   return {
+    'extras': extras, 'bounce': bounce,
     'dests': [list(d) for d in dests],
     'rf': draw(st.integers(1, 4)),
     'diverse': draw(st.booleans()),
@@ -100,8 +109,19 @@ def build_router(b, case):
   if cls is None:
     raise HarnessError('router plugin %r is gone' % case['router'])
   router = cls(settings)
+  extras = [tuple(d) for d in case.get('extras', [])]
+  for d in extras[:1]:
+    router.addDestination(d)
   for d in case['dests']:
     router.addDestination(tuple(d))
+  for d in extras[1:]:
+    router.addDestination(d)
+  for d in extras:
+    router.removeDestination(d)
+  for i in case.get('bounce', []):
+    router.removeDestination(tuple(case['dests'][i]))
+  for i in case.get('bounce', []):
+    router.addDestination(tuple(case['dests'][i]))
   return router
 
 
@@ -200,6 +220,8 @@ def execute(ctx, case):
     classes.append('rf > servers')
   if case.get('collision'):
     classes.append('two nodes with colliding node hashes')
+  if case.get('extras') or case.get('bounce'):
+    classes.append('membership changed before the look-ups')
   ctx.note(dict(case, names=case['names'][:3]), nontrivial=nt, classes=classes,
            key=[case['dests'], case['rf'], case['diverse'], case['router'], case['hash'], case['keys']])
 
